@@ -62,15 +62,15 @@ Definition created_stable_aug_stmt (k : cfg) : Prop :=
     lookup i (gFa g') = Some ats.
 
 (* ---- clause 2: a newly created augmented node never reuses the name of an existing node.
-   (Ordinary nodes are [nat], augmented names are [aug]: a clash with an ordinary node is excluded by typing,
-   which is the harness assumption "ordinary nodes are not named like augmented nodes".) *)
+   (Ordinary nodes are [nat], augmented names are [aug]; an ordinary node whose label is EQUAL to a generated name
+   (('F', 0.0), ('F', True), ...) is recorded in [occ g]: the new name avoids those too.) *)
 Definition fresh_f_stmt (k : cfg) : Prop :=
   forall ops o ts ats w',
     let w := run k ops in
     step k w (On o (LAddF ts ats)) = (w', 0) ->
     exists i g g',
       nth_error (objs w) o = Some g /\ nth_error (objs w') o = Some g' /\
-      ~ In (FN i) (anodes g) /\ anodes g' = anodes g ++ [FN i] /\ onodes g' = onodes g /\
+      ~ In (FN i) (anodes g ++ occ g) /\ anodes g' = anodes g ++ [FN i] /\ onodes g' = onodes g /\
       lookup i (gF g') = Some ts /\ lookup i (gFa g') = Some ats /\
       option_map f_targets (lookup i (fr (cell_of w' g'))) = Some ts /\
       option_map f_atargets (lookup i (fr (cell_of w' g'))) = Some ats.
@@ -81,7 +81,7 @@ Definition fresh_s_stmt (k : cfg) : Prop :=
     step k w (On o (LAddS d1 d2 ch)) = (w', 0) ->
     exists i g g',
       nth_error (objs w) o = Some g /\ nth_error (objs w') o = Some g' /\
-      ~ In (SN i) (anodes g) /\ anodes g' = anodes g ++ [SN i] /\
+      ~ In (SN i) (anodes g ++ occ g) /\ anodes g' = anodes g ++ [SN i] /\
       lookup i (gS g') = Some (d1, d2) /\ lookup i (sr (cell_of w' g')) = Some (d1, d2).
 
 (* ---- clause 3: independence.  An operation on object o (or the creation of a new object, by the constructor or
